@@ -299,7 +299,7 @@ func (x *c02Exec) execute(kind string, ctx []bctx.BindingContext) bool {
 	}
 	ctxS, readsS, gotS := strings.Join(in, ";"), joinStrsSep(x.reads, ";"), strings.Join(got, ";")
 	c.Op(fmt.Sprintf("exec ctx=%s reads=%s", ctxS, readsS), gotS)
-	c.Oracle(fmt.Sprintf("exec ctx=%s got=%s", ctxS, gotS))
+	c.Oracle(fmt.Sprintf("exec ctx=%s reads=%s got=%s", ctxS, readsS, gotS))
 	c.Note("exec:" + kind)
 	if len(x.pending) > 0 && len(x.reads) >= 2 {
 		c.Note("exec:cluster-changed-between-reads")
